@@ -386,6 +386,8 @@ def run(ctx, res):
     guard_start(prog, res)
     append_only_from_sink(prog, res)
     res.guard(identifier_equality, prog, res)
+    from .. import runtimerules as RR_
+    res.guard(RR_.rule_thread_exit, prog, res)
     res.guard(identifier_tracked, prog, res)
     res.require_min("R-IDENT-EQ", 4)
     shutdown_order(prog, res)
